@@ -1,5 +1,5 @@
 import RQ.Driver.Proto
-import RQ.Model.Write
+import RQ.Spec.Write
 import RQ.Spec.Apply
 /-! Engine `U`: parser and writer model vs the real `parse_patch` / `UnifiedPatchWriter`. -/
 namespace RQ.ParseEngine
@@ -18,10 +18,6 @@ def projHunkS (h : PHunk) : String := s!"[{h.remLine},{h.addLine},rem={linesS h.
 def projFpS (f : PFilePatch) : String :=
   s!"k={kindS f.kind},old{optHex f.old},new{optHex f.new},ren={boolS f.rename},om={optNatS f.oldPerm},nm={optNatS f.newPerm},oh{optHex f.oldHash},nh{optHex f.newHash},hunks=" ++ "".intercalate (f.hunks.map projHunkS)
 def projS (p : Patch) : String := if p.fps.isEmpty then "-" else ";".intercalate (p.fps.map projFpS)
-
-/-- known finding `hunkless-noop-vanishes`: a file patch without hunks, rename, modes and hashes -/
-def noopHunkless (f : PFilePatch) : Bool :=
-  f.hunks.isEmpty && !f.rename && f.oldPerm.isNone && f.newPerm.isNone && (f.oldHash.isNone || f.newHash.isNone)
 
 def errS : EB → String
   | .noMatch => "NoMatch" | .unsupportedMetadata => "UnsupportedMetadata" | .missingFilenameForHunk => "MissingFilenameForHunk"
@@ -61,7 +57,8 @@ def c12 (bs : Bytes) (strip : Nat) (impl : String) : String :=
     else "ok"
   if verdict == "ok" then "ok"
   else match parsePatch bs strip true with
-    | .ok p => if p.fps.any noopHunkless then "KNOWN:hunkless-noop-vanishes" else verdict
+    | .ok p => if p.fps.any noopHunkless then "KNOWN:hunkless-noop-vanishes"
+               else if p.fps.any nullNamed then "KNOWN:dev-null-named-file" else verdict
     | .error _ => verdict
 
 /-- the invariants `RQ.Props.C11` proves about every parsed patch, evaluated for the record -/
